@@ -571,9 +571,18 @@ fn run_case(lines: Vec<String>, hints: Arc<Mutex<Vec<String>>>, resp: Arc<Mutex<
                     si = si.add_model(M { idx: i, sh: sh.clone() }, mb, format!("m{i}"));
                 }
                 let clock = ScriptClock { sh: sh.clone(), n: 0, lags: lags.clone(), exts: std::mem::take(&mut exts), handle: handle.clone() };
-                si = si.set_clock(clock);
-                if let Some(t) = tol {
-                    si = si.set_clock_tolerance(du(t));
+                // the two builder calls in either order (the tolerance belongs to the simulation, not to a clock): the order is
+                // fixed by the case (parity of the start time and of the number of models), so a replay reproduces it
+                if (t0 + nmodels as u64) % 2 == 0 {
+                    si = si.set_clock(clock);
+                    if let Some(t) = tol {
+                        si = si.set_clock_tolerance(du(t));
+                    }
+                } else {
+                    if let Some(t) = tol {
+                        si = si.set_clock_tolerance(du(t));
+                    }
+                    si = si.set_clock(clock);
                 }
                 match si.init(base() + du(t0)) {
                     Ok((sim, sched)) => {
